@@ -70,6 +70,21 @@ async fn client(c: u64, st: Arc<Storage<ArrayKey<N>>>, log: Arc<Log>, ops: u64, 
         let ts = rng.gen_range(1..=6u64);
         let key = model_key::<N>(k);
         let dice = rng.gen_range(0..100);
+        // lifecycle calls race with the data operations (--lifecycle P: P in 1000 operations): the active
+        // blob is closed under the writers' feet, restored or created explicitly; data operations must not
+        // care (a write creates the active blob it needs).  Logged as `adm` events, which carry no data.
+        let life = LIFECYCLE.load(Ordering::SeqCst);
+        if life > 0 && rng.gen_range(0..1000) < life {
+            let what = rng.gen_range(0..4);
+            log.push(json!({"ev": "adm", "c": c, "op": what, "opid": opid}));
+            let r = match what {
+                0 | 1 => st.try_close_active_blob().await.is_ok(),
+                2 => st.try_restore_active_blob().await.is_ok(),
+                _ => st.try_create_active_blob().await.is_ok(),
+            };
+            log.push(json!({"ev": "admdone", "c": c, "opid": opid, "ok": r}));
+            continue;
+        }
         if dice < 55 {
             let len = 8 + (opid % 23) as usize + if dice < 3 { 5000 } else { 0 };
             payloads.lock().unwrap().insert(opid, len);
@@ -106,7 +121,10 @@ async fn finals(st: &Storage<ArrayKey<N>>, log: &Log, keys: u64, payloads: &Mute
     }
 }
 
+static LIFECYCLE: AtomicU64 = AtomicU64::new(0);
+
 fn main() {
+    LIFECYCLE.store(arg("--lifecycle").and_then(|s| s.parse().ok()).unwrap_or(0), Ordering::SeqCst);
     let cfg: HCfg = serde_json::from_str(&arg("--cfg").unwrap_or("{}".into())).expect("cfg");
     let clients: u64 = arg("--clients").and_then(|s| s.parse().ok()).unwrap_or(8);
     let ops: u64 = arg("--ops").and_then(|s| s.parse().ok()).unwrap_or(50);
